@@ -669,7 +669,7 @@ func (c *c10) genRandom(seed int64, base, n int) {
 		r := rand.New(rand.NewSource(seed*1000003 + int64(i)))
 		c.setSchema(randSchema(r))
 		m := randMsgPB(r, c.env.rroot, 0, pbGenCfg{maxStr: 300})
-		doc := refMarshal(m)
+		doc := refMarshalAnyOrder(r, m)
 		pc := PEditCase{B: doc}
 		if i%4 == 3 {
 			// directed history across a length-prefix width boundary
